@@ -12,8 +12,8 @@ import (
 
 	pb "github.com/AliceO2Group/Control/core/protos"
 
-	"verif/harness/coresim"
 	"github.com/mesos/mesos-go/api/v1/lib/scheduler"
+	"verif/harness/coresim"
 
 	simmesos "verif/harness/sim/mesos"
 	"verif/harness/vlib"
